@@ -1,5 +1,6 @@
 import Model.Pool
 import Model.Pipe
+import Model.PoolCtl
 import Driver.Util
 namespace Driver.C17
 open Util Pool
@@ -154,7 +155,77 @@ def runDebMacro (st : WDeb × List Nat) : List String → List String
     | some st' => showDeb st' :: runDebMacro st' ts
     | none => "skip" :: runDebMacro st ts
 
+/-! ### conducted schedules of Session.Close against the control connection (Model/PoolCtl.lean) -/
+
+/-- what happens by itself once it can: a reconnect attempt whose last round trip is over returns, the heartbeat
+    goroutine back in its select takes the closer's quit, the closer closes the control connection and goes on -/
+def ctlSettle (s : Ctl.St) : Nat → Ctl.St
+  | 0 => s
+  | n + 1 =>
+    match s.rc with
+    | .hb 0 => match Ctl.step s .rcDone with | some s' => ctlSettle s' n | none => s
+    | .other 0 => match Ctl.step s .rcDone with | some s' => ctlSettle s' n | none => s
+    | _ =>
+      if s.hb = .select ∧ s.cl = .sending then (match Ctl.step s .hbQuit with | some s' => ctlSettle s' n | none => s)
+      else if s.cl = .closeConn then (match Ctl.step s .closeConn with | some s' => ctlSettle s' n | none => s)
+      else s
+
+/-- the session context is cancelled (Session.Close went through): the round trips an attempt still had fail at once -/
+def ctlDrain (s : Ctl.St) : Nat → Ctl.St
+  | 0 => s
+  | n + 1 => match Ctl.step s .rcStep with
+    | some s' => ctlDrain s' n
+    | none => s
+
+def ctlMacro (s : Ctl.St) (tok : String) : Option Ctl.St :=
+  match splitTok tok with
+  -- the server resets the control connection while every dial is refused: the reader's reconnect() fails at once
+  | ("drop", none) =>
+      if s.state = .closing ∨ s.rc ≠ .free ∨ s.cl ≠ .idle then none else (Ctl.step s (.otherEnter 0)).map (ctlSettle · 4)
+  -- the heartbeat finds the connection broken: reconnect() with k round trips, the first one held
+  | ("hbfail", some k) =>
+      if s.cl ≠ .idle ∨ s.rc ≠ .free then none else
+      ((Ctl.step s .hbTimer).bind (Ctl.step · (.hbBeatFail k))).map (ctlSettle · 4)
+  | ("rel", none) => (match s.rc with | .hb _ => (Ctl.step s .rcStep).map (ctlSettle · 4) | _ => none)
+  -- the server resets the control connection while dials are held: the reader's reconnect(), k round trips, the first held
+  | ("dropo", some k) =>
+      if s.state = .closing ∨ s.rc ≠ .free ∨ s.cl ≠ .idle then none else (Ctl.step s (.otherEnter k)).map (ctlSettle · 4)
+  | ("relo", none) => (match s.rc with | .other _ => (Ctl.step s .rcStep).map (ctlSettle · 4) | _ => none)
+  -- Session.Close: blocked behind a reconnect of the heartbeat goroutine; otherwise it goes through, and its cancel()
+  -- ends a reconnect attempt of another goroutine (the connection it is setting up lives on the session context)
+  | ("close", none) => (Ctl.step s .close).map fun s1 =>
+      let s2 := ctlSettle s1 4
+      match s2.cl, s2.rc with
+      | .done, .other k => ctlSettle (ctlDrain s2 (k + 1)) 4
+      | _, _ => s2
+  | _ => none
+
+def showCtl (s : Ctl.St) : String :=
+  let h := match s.hb with | .notStarted => "N" | .select => "S" | .beat => "B" | .inReconn => "R" | .exited => "X"
+  let c := match s.cl with | .idle => "I" | .sending => "S" | .closeConn => "C" | .done => "D"
+  let r := match s.rc with | .free => "0" | _ => "1"
+  let st := match s.state with | .starting => "0" | .started => "1" | .closing => "-1"
+  s!"h{h}c{c}r{r}s{st}"
+
+def runCtlMacro (s : Ctl.St) : List String → List String
+  | [] => []
+  | t :: ts => match ctlMacro s t with
+    | some s' => showCtl s' :: runCtlMacro s' ts
+    | none => "skip" :: runCtlMacro s ts
+
 /-- ops:
+  ctl : act act …      a conducted schedule of one Session with a control connection (acts: drop hbfailK rel dropoK relo close) →
+      `h<heartbeat goroutine>c<closer>r<reconnecting>s<state>` after every action, initial state (heartbeat started) first
+  ctlunit hb close | ctlunit close hb    the same letters for a fresh controlConn on which the heartbeat goroutine's
+      first instruction resp. close() runs first (close first: the heartbeat goroutine then runs for good, KF-C17-4)
+  retry n=N fates=<o|t|p…>   one refill of an emptied size-1 pool under a reconnection policy with GetMaxRetries() = N, the
+      attempts' fates scripted (o connects, t fails retryably, p fails with a non-temporary *net.OpError; beyond the list: o)
+      → `res=… dials=… conns=… nil=… pick=…` (Retry.connect; N = 0 is predicted as the code behaves: a nil connection, KF-C17-5)
+  retryobs n=N dials=D nil=Z pick=P    its monitors for N ≥ 1: D ≤ N, no nil entry in pool.conns, Pick does not fault
+      (C17_connect_conn_or_error_partial, C17_connect_attempts_bounded)
+  ctlobs closeret=B hbleft=N leaked=L stack=… open=O queryerr=… sched=…   monitors of one such scenario: Session.Close
+      returns (C17_ctl_closer_never_stranded / C17_ctl_close_wait_bounded), the heartbeat goroutine is gone
+      (C17_ctl_heartbeat_exits_partial: the closer's CAS found it started), nothing left, queries refused
   pipe size=N ks=K auth=A rm=… : act act …
       a conducted schedule of the connect pipeline → the line of states `cur:open:closedconns;…` the model
       predicts (initial state first); acts: okK failEK failRK errK pick burst up upsN uppN down pclose sclose shold sfin
@@ -204,6 +275,48 @@ def step (_ : Unit) (ws : List String) : Unit × String :=
         else if st > 0 then "reject:no-quiescence"
         else "accept"
       | _, _, _, _, _, _, _ => "bad-op"
+  | "ctl" :: ":" :: acts =>
+      match Ctl.step Ctl.init .hbStart with
+      | some s0 => ";".intercalate (showCtl s0 :: runCtlMacro s0 acts)
+      | none => "bad-op"
+  | ["ctlunit", a, b] =>
+      -- whose first instruction runs first on a fresh controlConn: the heartbeat goroutine's CAS or close()'s
+      let acts : Option (List Ctl.Act) :=
+        if a == "hb" && b == "close" then some [.hbStart, .close] else
+        if a == "close" && b == "hb" then some [.close, .closeConn, .hbStart] else none
+      match acts.bind (Ctl.run Ctl.init) with
+      | some s => showCtl (ctlSettle s 4)
+      | none => "bad-op"
+  | "retry" :: r =>
+      match kv r "n", kvs r "fates" with
+      | some n, some fs =>
+        let cs := if fs == "-" then [] else fs.toList
+        let f : Nat → Retry.Dial := fun i => match cs[i]? with
+          | some 't' => .temp | some 'p' => .perm | _ => .ok
+        let (res, dials) := Retry.connect n f
+        let (c, z) := Retry.appended res
+        let (rs, pk) := match res with
+          | .conn _ => ("conn", "ok") | .err => ("err", "none") | .nilNoErr => ("nil", "nilderef")
+        s!"res={rs} dials={dials} conns={c} nil={z} pick={pk}"
+      | _, _ => "bad-op"
+  | "retryobs" :: r =>
+      match kv r "n", kv r "dials", kv r "nil", kvs r "pick" with
+      | some n, some d, some z, some pk =>
+        if d > n then s!"reject:attempts-{d}-of-{n}"
+        else if z > 0 then s!"reject:nil-connection-in-pool-{z}"
+        else if pk == "nilderef" then "reject:pick-dereferences-nil-connection"
+        else "accept"
+      | _, _, _, _ => "bad-op"
+  | "ctlobs" :: r =>
+      match kv r "closeret", kv r "hbleft", kv r "leaked", kv r "open", kvs r "queryerr" with
+      | some c, some h, some l, some o, some q =>
+        if c ≠ 1 then "reject:close-did-not-return"
+        else if h > 0 then s!"reject:heartbeat-goroutine-left-{h}"
+        else if l > 0 then s!"reject:goroutines-left-in-gocql-{l}:{(kvs r "stack").getD "?"}"
+        else if o > 0 then s!"reject:open-after-close-{o}"
+        else if q != "closed" then s!"reject:query-after-close-{q}"
+        else "accept"
+      | _, _, _, _, _ => "bad-op"
   | "deb" :: ":" :: acts =>
       let st : WDeb × List Nat := (WDeb.init, [])
       ";".intercalate (showDeb st :: runDebMacro st acts)
